@@ -114,6 +114,10 @@ class WithEL(SimCheck):
 # ------------------------------------------------------------------------------------------------
 class C01(WithEL):
     prop = "C01"
+    level_text = ("Theorems over every reachable world of the simulator model, for every protocol program: the queue never "
+                  "holds the past, executed timestamps and reported callback times never decrease, callbacks report their "
+                  "event's due time, past requests are refused without effect; the same for every EventLoop API history. "
+                  "The model is tied to the code by running both on generated scenarios and histories.")
     rule = ("EventLoop API histories over a 2-6 value timestamp alphabet (ties, past requests) + full simulations with "
             "seeded table-driven protocols mixing timers, sends, broadcasts, mobility, zero delays; non-trivial = a "
             "request issued from inside a callback for the current instant was accepted AND a past request was refused "
@@ -196,6 +200,10 @@ class C01(WithEL):
 # ------------------------------------------------------------------------------------------------
 class C02(WithEL):
     prop = "C02"
+    level_text = ("Theorems: for every EventLoop API history popped++queued++dropped is a permutation of the accepted "
+                  "requests, len conservation, refused calls are no-ops, peek is non-destructive; for every simulator run "
+                  "executed++queued is a duplicate-free permutation of the accepted requests. Tied to the code by "
+                  "differential execution.")
     el_enum_len = 5
     rule = ("EventLoop API histories (up to 400 ops, interleaved clears; thorough: every history of <= 5 ops over 3 "
             "timestamps) + simulations run to exhaustion; non-trivial = queue size >= 4 at some point and >= 1 refused op "
@@ -285,6 +293,9 @@ def fifo_failures(case, impl):
 
 class C03(WithEL):
     prop = "C03"
+    level_text = ("Theorems: executed events are strictly increasing in (timestamp, request order) along every run and every "
+                  "API history, hence FIFO among equal timestamps; a negative theorem on the faithful heapq port documents "
+                  "the repaired defect. Tied to the code by differential execution on tie-heavy histories and bursts.")
     el_enum_len = 5
     rule = ("tie-heavy EventLoop histories (2-3 timestamps, bursts, removals in between) + simulations with bursts of "
             "same-instant timers and sends on one link; non-trivial = a tie group of size >= 4")
